@@ -67,7 +67,7 @@ def make_world(seed, collide):
                     num = per_chr_t[g.chrom] if rng.random() < 0.7 else 60 + per_chr_t[g.chrom]
                     id_map[t.id] = "transcript%d.%s.%s" % (num, g.chrom, rng.choice(("nic", "nnic")))
                 for e in t.exons:
-                    k = (g.chrom, e[0], e[1], g.strand)
+                    k = (g.chrom, e[0], e[1], t.strand)
                     if k in exon_ids:
                         continue
                     c = rng.random()
